@@ -1,5 +1,5 @@
-CONSTANTS Tasks = {t1, t2, t3, t4}  MaxOps = 1  YieldSet = TRUE  TSO = FALSE  Bug = "none"
-CONSTANT Prog <- ExtractedProg  Attempts <- ExtractedAttempts  Try <- ExtractedTry  Rel <- ExtractedRel
+CONSTANTS Tasks = {t1, t2, t3, t4}  MaxOps = 1  YieldSet = TRUE  TSO = FALSE  Bug = "none"  RelPlain = FALSE
+CONSTANT Prog <- ExtractedProg  EntryAcq <- ExtractedEntryAcq  EntryTry <- ExtractedEntryTry  EntryRel <- ExtractedEntryRel
 SPECIFICATION Spec
 INVARIANT MutualExclusion
 INVARIANT HeldMeansLocked
